@@ -157,6 +157,16 @@ PROPS["C15"] = dict(
     assumptions=["plot files are created header-only (massdb.v1 does not pre-allocate), so sizes up to a few GiB are cheap", "bit lengths for ByBitLength limited to 24..32"],
 )
 
+PROPS["C11"] = dict(
+    pkgs=[CAP], level="exploration", death_is_violation=True,
+    quick=dict(checks=480, shards=16, timeout=600),
+    thorough=dict(checks=9600, shards=16, timeout=2400),
+    technique="property-based testing: generated plot-directory contents (real massdb.v1 files with one mutation each) judged by an independent classifier; generated remove/delete histories with directory diff before/after every operation",
+    level_text="A keeper constructed on generated directories must index exactly what an independent header parser/classifier accepts (once each, right state); generated single and bulk remove/delete actions on spaces in every state must be refused while plotting/mining and erase exactly the space's files otherwise. Exploration.",
+    level_note="Trusted: the classifier in zz_verif_c11_test.go (written from the file-format comment in hashmap.go and the statement); plotting state is forced white-box (the guard logic is under test, not the plotter).",
+    assumptions=["file names are judged in the canonical lower-case form the node writes itself", "progress is fabricated by writing checkpoints into headers (no table data is needed for indexing)"],
+)
+
 META = dict(
     na_default="check not built yet in this session (work in progress; see DESIGN.md §4) - not a claim that the technique cannot apply",
     hooks=dict(guard="verif", enable="go test -tags verif (the driver ./check always builds with -tags verif through -overlay/-modfile, see DESIGN.md §2.2)",
